@@ -267,9 +267,8 @@ def gen_case(r, tier, res):
                 host = loom.split(".")[0]
                 off = offs.get(host, 0)
                 c = base + r.randrange(0, span + 1)
-                # keep the corrected first clock non-negative for valid cases
-                if c + off < 0:
-                    c = -off + r.randrange(0, 3)
+                # (a negative corrected first clock is valid input: since `fix: do not compare the
+                # first clock of a stream` the first event is not compared with lastclock = 0)
                 clocks = []
                 for _ in range(n):
                     clocks.append(c)
@@ -474,6 +473,15 @@ def e2e_case(res, prep, d, case, samples):
                 return viol
             res.dist("emu:" + ("ok" if completed else "reject"))
             offs = host_offsets(case)
+            # independent of the model: per-stream sorted input, a usable table and first corrected
+            # clocks within the one-hour gate of each other must be replayed
+            if offs is not None and not completed and variant == "canonical":
+                firsts = [s["clocks"][0] + offs[i] for i, s in enumerate(streams) if s["clocks"]]
+                srt = all(a <= b for s in streams for a, b in zip(s["clocks"], s["clocks"][1:]))
+                if srt and (not firsts or max(firsts) - min(firsts) <= MAXGATE):
+                    res.dist("oracle-failed:sorted-input-refused")
+                    viol.append((key("emu-refuses-sorted"), "ovniemu refuses per-stream sorted streams with a valid "
+                                 "offset table inside the clock gate\n" + err[-800:]))
             if memu is None:
                 if completed:
                     viol.append((key("emu-accepts"), f"ovniemu replays a trace the model refuses ({variant})"))
@@ -514,31 +522,6 @@ def e2e_case(res, prep, d, case, samples):
     return viol
 
 
-NEGFIRST_KEY = "negative-first-corrected-clock"
-
-
-def finding_negative_first(res, prep, d):
-    """A sorted stream whose first corrected clock is negative (clock 3, host
-    offset -5) is refused by ovniemu: stream_step compares against the
-    zero-initialised lastclock.  Reported under a stable key."""
-    case = {"kind": "negfirst", "table": [["node0", -5]], "order": [0, 1],
-            "streams": [{"loom": "node0", "pid": 1, "tid": 101, "clocks": [3, 9]},
-                        {"loom": "node1", "pid": 2, "tid": 102, "clocks": [1, 2]}]}
-    st = build_streams(case)
-    td = os.path.join(d, "neg")
-    write_trace(td, st)
-    tf = os.path.join(d, "neg-off.txt")
-    with open(tf, "w") as f:
-        f.write("rank hostname offset_median offset_mean offset_std\n0 node0 -5 -5.0 0.0\n")
-    rc, _, err = run_tool(os.path.join(prep.bdir, "src/emu/ovniemu"), ["-c", tf, td])
-    res.dist("finding-probe:negfirst:" + ("rejected" if rc != 0 else "accepted"))
-    if rc != 0 and "clock goes backwards" in err:
-        res.violation(NEGFIRST_KEY,
-                      "sorted streams + offset table giving a negative first corrected clock are refused "
-                      "('clock goes backwards 0 -> -2'): stream.lastclock starts at 0",
-                      "case " + json.dumps(case) + "\n" + err[-600:])
-
-
 def run_cases(res, prep, cases, found):
     samples = []
     with Scratch("c03") as d:
@@ -546,7 +529,6 @@ def run_cases(res, prep, cases, found):
             for key, text in e2e_case(res, prep, d, case, samples):
                 found = True
                 res.violation(key, text, "case " + json.dumps(case) + "\n# " + text.replace("\n", "\n# "))
-        finding_negative_first(res, prep, d)
     return found
 
 
@@ -567,6 +549,10 @@ def fixed_cases():
                            {"loom": "h.2", "pid": 2, "tid": 6, "clocks": [1, 2]},
                            {"loom": "g", "pid": 3, "tid": 7, "clocks": [5, 5, 5, 6]}]})
     cs.append({"kind": "valid", "table": None, "order": [0], "streams": [{"loom": "n", "pid": 1, "tid": 1, "clocks": []}]})
+    # past failure (repaired by `fix: do not compare the first clock of a stream`): negative first corrected clock
+    cs.append({"kind": "negfirst", "table": [["node0", -5]], "order": [1, 0],
+               "streams": [{"loom": "node0", "pid": 1, "tid": 101, "clocks": [3, 9]},
+                           {"loom": "node1", "pid": 2, "tid": 102, "clocks": [1, 2]}]})
     # relpath order is strcmp order, not numeric: thread.10 < thread.9
     cs.append({"kind": "valid", "table": None, "order": [2, 1, 0],
                "streams": [{"loom": "n", "pid": 1, "tid": 9, "clocks": [5, 5]},
